@@ -48,7 +48,7 @@ RULE = ("cases: edit = a valid seed recipe (16 built-in seeds covering every con
         "28-key alphabet incl. non-string keys; list element deleted / duplicated; two values swapped), "
         "tiny seeds exhaustive in both tiers, other seeds exhaustive in thorough (budget 105k edits) and sampled in "
         "quick; doc = random YAML trees depth<=4 over the recipe vocabulary; text = raw texts (aliases, "
-        "cycles, tags, merge keys, unloadable text); fault = recipes with one injected run-time "
+        "cycles, tags, merge keys, unloadable text); files = multi-file recipes: fixed sets plus generated include graphs (2-4 files, paths spelled with ./.. detours, cycles of length 1-3); macrograph = macro rings of length 1-3 with every combination of edge kinds (include / friend / nested object / nested below a friend) plus random graphs; the snowfakery_version option with 23 default shapes; fault = recipes with one injected run-time "
         "exception (plugin call, attribute lookup, count conversion, for_each, write_row; top level / "
         "friend / nested).  Each document runs under a 10 s limit.  Compared with the Coq model: the "
         "static verdict Accept / Reject / Crash(type@file:function) of parse_recipe + merge_options + "
@@ -397,6 +397,7 @@ MINI = {
  "m_option": "- option: o\n  default: 1\n",
  "m_var": "- var: v\n  value: 1\n",
  "m_version": "- snowfakery_version: 2\n",
+ "m_veropt": "- option: snowfakery.standard_plugins.SnowfakeryVersion.snowfakery_version\n  default: 3\n- object: A\n",
  "m_object": "- object: A\n  count: 1\n  nickname: a\n  just_once: false\n  update_key: x\n  fields:\n    x: 1\n"
              "  friends:\n  - object: B\n    just_once: false\n",
  "m_nested": "- object: A\n  fields:\n    c:\n    - object: C\n      just_once: false\n",
@@ -438,7 +439,7 @@ def seeds():
 # =============================================================================== edits
 def _py_alpha():
     return [None, True, False, 0, 1, 5, -3, 0.0, 1.5, float("inf"), float("nan"),
-            "", "x", "a.b.c", "/abs", ".", "5", "inf", "${{ 1/0 }}", "m, ,q",
+            "", "x", "a.b.c", "/abs", ".", "5", "3", "3.0", "three", "inf", "${{ 1/0 }}", "m, ,q",
             _dt.date(2020, 1, 1), _dt.datetime(2020, 1, 1, 10, 0, 0), b"hi", {"a", "b"},
             [], ["x"], [{"object": "B"}], [1, 2], ["x", {"a": "b"}], [{"a": "b"}],
             {}, {"k": "v"}, {"object": "B"}, {5: "v"}, {None: "v"}, {"a.b": 1},
@@ -547,7 +548,7 @@ def arb_key(rng):
 
 
 def arb_scalar(rng):
-    return copy.deepcopy(rng.choice(REPL[:24]))
+    return copy.deepcopy(rng.choice(REPL[:27]))
 
 
 def arb_value(rng, d):
@@ -642,6 +643,124 @@ FILESETS = {
 }
 
 
+FILESETS.update({
+ "dotdot_self": {"main.yml": "- include_file: sub/../main.yml\n- object: A\n", "sub/x.yml": "- object: X\n"},
+ "dot_self": {"main.yml": "- include_file: ./main.yml\n- object: A\n"},
+ "dotdot_two_cycle": {"main.yml": "- include_file: sub/second.yml\n- object: A\n",
+                      "sub/second.yml": "- include_file: ../sub/../main.yml\n- object: B\n"},
+ "dotdot_three_cycle": {"main.yml": "- include_file: b/b.yml\n- object: A\n", "b/b.yml": "- include_file: ../c/./c.yml\n",
+                        "c/c.yml": "- include_file: ../b/../main.yml\n- object: C\n"},
+ "dotdot_back_to_middle": {"main.yml": "- include_file: b/b.yml\n- object: A\n", "b/b.yml": "- include_file: ../c/c.yml\n",
+                           "c/c.yml": "- include_file: ../c/../b/b.yml\n"},
+ "dotdot_acyclic": {"main.yml": "- include_file: sub/../other.yml\n- include_file: sub/./x.yml\n- object: A\n",
+                    "other.yml": "- object: O\n", "sub/x.yml": "- include_file: ../other.yml\n- object: X\n"},
+ "dotdot_missing_dir": {"main.yml": "- include_file: nosuch/../main.yml\n- object: A\n"},
+})
+
+
+def _detour(rng, frm_dir, to_path, dirs):
+    """a relative spelling of to_path as seen from directory frm_dir, with optional . / .. detours"""
+    rel = os.path.relpath(to_path, frm_dir or ".")
+    r = rng.random()
+    if r < 0.35:
+        return rel
+    if r < 0.5:
+        return "./" + rel
+    d = rng.choice(dirs)
+    up = os.path.relpath(".", frm_dir or ".")            # way back to the root of the file set
+    via = os.path.normpath(os.path.join(up, d))
+    back = os.path.relpath(frm_dir or ".", d)
+    return os.path.join(via, back, rel).replace("/./", "/") if rng.random() < 0.8 else os.path.join(via, ".", back, rel)
+
+
+def gen_fileset(rng):
+    """2-4 files in up to 3 directories, include edges spelled with detours; cyclic (length 1-3) or not"""
+    dirs = ["a", "b"][: rng.choice([1, 2, 2])]
+    n = rng.choice([1, 2, 2, 3, 3, 4])
+    names = ["main.yml"] + [f"{rng.choice(dirs + [''])}/f{i}.yml".lstrip("/") for i in range(1, n)]
+    files = {d + "/keep.yml": "- object: K\n" for d in dirs}
+    edges = {i: [] for i in range(n)}
+    for i in range(n - 1):
+        edges[i].append(i + 1)                                # a chain main -> f1 -> f2 ...
+    shape = rng.choice(["acyclic", "cycle", "cycle", "cycle"])
+    if shape == "cycle":
+        edges[n - 1].append(rng.randrange(0, n))              # close a cycle of length 1..n
+    elif n > 2 and rng.random() < 0.5:
+        edges[0].append(n - 1)                                # a diamond-ish second route
+    for i, name in enumerate(names):
+        lines = []
+        for j in edges[i]:
+            lines.append("- include_file: " + _detour(rng, os.path.dirname(name), names[j], dirs) + "\n")
+        lines.append(f"- object: T{i}\n")
+        files[name] = "".join(lines)
+    return {"kind": "files", "files": files, "main": "main.yml", "label": "files:gen:" + shape}
+
+
+def macro_graph_doc(kinds, entry_via="include", extra_edges=()):
+    """macros m0..m(k-1) in a ring; edge i -> i+1 of kind kinds[i]: 'include' (the macro's own include:),
+    'friend' (a friends template that includes the next macro) or 'nested' (a nested object in a field)"""
+    k = len(kinds)
+    out = []
+    edges = [(i, (i + 1) % k, kinds[i]) for i in range(k)] + list(extra_edges)
+    for i in range(k):
+        m = {"macro": f"m{i}"}
+        incs, friends, fields = [], [], {"own": i}
+        for a, b, kind in edges:
+            if a != i:
+                continue
+            if kind == "include":
+                incs.append(f"m{b}")
+            elif kind == "friend":
+                friends.append({"object": f"F{i}", "include": f"m{b}"})
+            elif kind == "nested":
+                fields[f"n{b}"] = [{"object": f"N{i}", "include": f"m{b}"}]
+            elif kind == "nested_friend":
+                friends.append({"object": f"F{i}", "fields": {"c": {"object": f"G{i}", "include": f"m{b}"}}})
+        if incs:
+            m["include"] = ", ".join(incs)
+        if friends:
+            m["friends"] = friends
+        m["fields"] = fields
+        out.append(m)
+    if entry_via == "include":
+        out.append({"object": "Top", "include": "m0"})
+    elif entry_via == "friend":
+        out.append({"object": "Top", "friends": [{"object": "TF", "include": "m0"}]})
+    else:
+        out.append({"object": "Top", "fields": {"c": [{"object": "TN", "include": "m0"}]}})
+    return out
+
+
+def macro_graph_cases(rng, tier):
+    import itertools
+    cases = []
+    kinds = ["include", "friend", "nested", "nested_friend"]
+    for k in (1, 2, 3):
+        for combo in itertools.product(kinds, repeat=k):
+            if k == 3 and tier == "quick" and "nested_friend" in combo and rng.random() < 0.5:
+                continue
+            cases.append({"kind": "doc", "tree": from_py(macro_graph_doc(combo, rng.choice(["include", "friend", "nested"]))),
+                          "base": None, "label": "macrograph:ring:" + "-".join(combo)})
+    # chains that do not close (legal), rings entered half way, rings with a chord
+    for _ in range(30 if tier == "quick" else 1500):
+        k = rng.choice([2, 2, 3, 3, 4])
+        combo = [rng.choice(kinds) for _ in range(k)]
+        doc = macro_graph_doc(combo, rng.choice(["include", "friend", "nested"]),
+                              extra_edges=[(rng.randrange(k), rng.randrange(k), rng.choice(kinds))] if rng.random() < 0.5 else ())
+        if rng.random() < 0.35:                               # open the ring: drop what closes it
+            last = doc[k - 1]
+            for key in ("include", "friends"):
+                last.pop(key, None)
+            last["fields"] = {"own": k - 1}
+        cases.append({"kind": "doc", "tree": from_py(doc), "base": None, "label": "macrograph:random"})
+    return cases
+
+
+# the version option with every scalar shape
+VERSION_DEFAULTS = [2, 3, 7, 0, 2.0, 3.0, 2.5, float("nan"), True, None, "2", "3", "3.0", "three", "v3", "", " 3 ",
+                    "0x3", "3e0", "٣", _dt.date(2020, 1, 1), [3], {"a": 3}]
+
+
 # =============================================================================== fault cases
 # skeleton positions for an injected fault; see _fault_recipe.  `exc` is a Python exception name.
 FAULT_SITES = ["field_call", "field_attr", "var_call", "var_attr", "count_call", "count_attr", "count_conv_simple",
@@ -728,6 +847,16 @@ def generate(rng, tier):
         cases.append({"kind": "text", "text": text, "label": "text:" + name})
     for name, fs in FILESETS.items():
         cases.append({"kind": "files", "files": fs, "main": "main.yml", "label": "files:" + name})
+    for _ in range(60 if tier == "quick" else 2500):
+        cases.append(gen_fileset(rng))
+    cases.extend(macro_graph_cases(rng, tier))
+    for v in VERSION_DEFAULTS:
+        for where in ("default", "both"):
+            doc = [{"option": "snowfakery.standard_plugins.SnowfakeryVersion.snowfakery_version", "default": v},
+                   {"object": "A"}]
+            if where == "both":
+                doc.insert(0, {"snowfakery_version": 3})
+            cases.append({"kind": "doc", "tree": from_py(doc), "base": None, "label": "version-option"})
     for name in sd:
         cases.append({"kind": "edit", "seed": name, "edit": None})      # the unchanged seed
     for site in FAULT_SITES:
